@@ -21,3 +21,6 @@ open Pyrealb.C05
 #print axioms aux_verbs_known_tbl
 #print axioms tempsAux_matches_rules_tbl
 #print axioms compound_tenses_tbl
+#print axioms ne_position_clause_holds
+#print axioms neg2_position_clause_holds
+#print axioms clitic_order_clause_holds
